@@ -296,6 +296,83 @@ Proof.
   cbn. unfold setup_communicate, no_data. cbn. destruct (b_out e), (b_err e); cbn; intros T; injection T as <-; reflexivity.
 Qed.
 
+(* ---------- working directory and detached ---------- *)
+
+Definition cwd_edit (o : op) (prev : option str) : option str := match o with OCwd d => Some d | _ => prev end.
+Definition det_edit (o : op) (prev : bool) : bool := match o with ODetached => true | _ => prev end.
+Definition is_cwd (o : op) : bool := match o with OCwd _ => true | _ => false end.
+Definition is_detached (o : op) : bool := match o with ODetached => true | _ => false end.
+
+Lemma apply_cwd_det base e o e' : apply_op base e o = Some e' ->
+  b_cwd e' = cwd_edit o (b_cwd e) /\ b_detached e' = det_edit o (b_detached e).
+Proof.
+  destruct o as [a|l|k v|l|k| |d|[r|d]|r|r| | |]; cbn; intros H;
+    try (injection H as <-; cbn; split; reflexivity).
+  - apply (stdin_redir_inv base) in H. destruct H as [_ [r' [_ ->]]]. cbn. split; reflexivity.
+  - destruct (b_in e); try discriminate. injection H as <-. cbn. split; reflexivity.
+  - destruct (set_once (b_out e) r); [|discriminate]. injection H as <-. cbn. split; reflexivity.
+  - destruct (set_once (b_err e) r); [|discriminate]. injection H as <-. cbn. split; reflexivity.
+Qed.
+
+(* cwd() and detached() are plain edits: the description after any sequence of calls is the fold of them *)
+Theorem cwd_detached_fold base : forall ops e e', run_plain base e ops = Some e' ->
+  b_cwd e' = fold_left (fun c o => cwd_edit o c) ops (b_cwd e)
+  /\ b_detached e' = fold_left (fun b o => det_edit o b) ops (b_detached e).
+Proof.
+  induction ops as [|o r IH]; intros e e' H.
+  - cbn in H. injection H as <-. split; reflexivity.
+  - cbn [run_plain] in H. destruct (apply_op base e o) as [e1|] eqn:A; [|discriminate].
+    apply apply_cwd_det in A. destruct A as [A1 A2]. destruct (IH _ _ H) as [H1 H2].
+    cbn [fold_left]. rewrite H1, H2, A1, A2. split; reflexivity.
+Qed.
+
+Lemma fold_cwd_untouched : forall ops c, forallb (fun o => negb (is_cwd o)) ops = true ->
+  fold_left (fun c o => cwd_edit o c) ops c = c.
+Proof.
+  induction ops as [|o r IH]; intros c H; [reflexivity|].
+  cbn [forallb] in H. apply andb_prop in H. destruct H as [Ho Hr]. cbn [fold_left].
+  rewrite (IH _ Hr). destruct o; try reflexivity. discriminate Ho.
+Qed.
+
+Lemma fold_det_true : forall ops, fold_left (fun b o => det_edit o b) ops true = true.
+Proof. induction ops as [|o r IH]; [reflexivity|]. cbn [fold_left]. destruct o; exact IH. Qed.
+
+Lemma fold_det_exists : forall ops b, fold_left (fun b o => det_edit o b) ops b = b || existsb is_detached ops.
+Proof.
+  induction ops as [|o r IH]; intros b; [cbn; rewrite orb_false_r; reflexivity|].
+  cbn [fold_left existsb]. rewrite IH. destruct o; cbn [det_edit is_detached]; rewrite ?orb_false_l; try reflexivity.
+  rewrite !orb_true_l, orb_true_r. reflexivity.
+Qed.
+
+(* the last cwd() call wins; without any, the directory is the one the description had (none for a fresh command) *)
+Theorem cwd_last_wins base ops1 d ops2 e e' :
+  run_plain base e (ops1 ++ OCwd d :: ops2) = Some e' -> forallb (fun o => negb (is_cwd o)) ops2 = true ->
+  b_cwd e' = Some d.
+Proof.
+  intros H N. apply cwd_detached_fold in H. destruct H as [H _]. rewrite H, fold_left_app. cbn [fold_left cwd_edit].
+  apply fold_cwd_untouched. exact N.
+Qed.
+
+Theorem cwd_untouched base ops e e' :
+  run_plain base e ops = Some e' -> forallb (fun o => negb (is_cwd o)) ops = true -> b_cwd e' = b_cwd e.
+Proof. intros H N. apply cwd_detached_fold in H. destruct H as [H _]. rewrite H. apply fold_cwd_untouched. exact N. Qed.
+
+(* detached() is sticky and nothing else sets it *)
+Theorem detached_iff_called base ops e e' :
+  run_plain base e ops = Some e' -> b_detached e' = b_detached e || existsb is_detached ops.
+Proof. intros H. apply cwd_detached_fold in H. destruct H as [_ H]. rewrite H. apply fold_det_exists. Qed.
+
+(* every terminator launches with the description's directory and environment; only communicate() changes the
+   detached flag (it sets it) *)
+Theorem terminate_carries e t l : terminate e t = Some l ->
+  l_cwd l = b_cwd e /\ l_env l = b_env e /\ l_argv l = b_command e :: b_args e
+  /\ l_detached l = (match t with TCommunicate => true | _ => b_detached e end).
+Proof.
+  destruct t; cbn; unfold popen, setup_communicate, no_data, set_once; cbn;
+    destruct (b_data e), (b_in e), (b_out e), (b_err e); cbn; intros T; try discriminate;
+    injection T as <-; cbn; repeat split; reflexivity.
+Qed.
+
 (* ---------- clone ---------- *)
 
 (* the two handles are independent: calls on the current handle leave the other one untouched, a clone
